@@ -242,6 +242,7 @@ func runC04(c *Ctx) {
 	c.r0420("R04.20", []string{"css"})
 	c.r0421(pk)
 	c.r0422(pk)
+	c.r0424(pk)
 	// positions remembered while rewriting a value list (background layers) stay valid: same rule as R10.5, css only
 	c.alsoUnder(map[string]string{"R10.5": "R04.8"}, func(construct string) bool {
 		return strings.HasPrefix(construct, "css.") || strings.HasPrefix(construct, "floor/")
@@ -1801,4 +1802,42 @@ func (c *Ctx) r0422(pk *packages.Package) {
 		}
 	}
 	c.R.Floor(rule, "in-place lower-casing of selector identifiers", n, 1)
+}
+
+// R04.24 (known finding K16): `initial` replaces a value only where it is the whole value.
+func (c *Ctx) r0424(pk *packages.Package) {
+	const rule = "R04.24"
+	c.R.Rule(rule, "CSS Cascade 4 §7.3: the CSS-wide keywords are values of a whole declaration; `border-color:initial red initial` is not a valid declaration and is dropped. In cssMinifier.minifyProperty every store of initialBytes into an element of the value list addresses element 0 (of a list that is, or has just been cut to, one value) — a store at a loop index writes the keyword next to other values. The test-suite pins `border-color: currentcolor red currentcolor` → `initial red initial`")
+	info := pk.TypesInfo
+	fd := c.fn(rule, pk, "cssMinifier.minifyProperty")
+	if fd == nil {
+		return
+	}
+	n := 0
+	ast.Inspect(fd.Body, func(x ast.Node) bool {
+		as, ok := x.(*ast.AssignStmt)
+		if !ok || len(as.Lhs) != 1 || len(as.Rhs) != 1 {
+			return true
+		}
+		if s, ok := c.exprBytesText(pk, as.Rhs[0]); !ok || s != "initial" {
+			return true
+		}
+		se, ok := as.Lhs[0].(*ast.SelectorExpr)
+		if !ok || se.Sel.Name != "Data" {
+			return true
+		}
+		ie, ok := ast.Unparen(se.X).(*ast.IndexExpr)
+		if !ok {
+			return true
+		}
+		n++
+		construct := fmt.Sprintf("css.cssMinifier.minifyProperty/%s/initial written#%d as the whole value", c.caseLabel(as), n)
+		if v, isK := intConst(info, ie.Index); isK && v == 0 {
+			c.R.OK(rule, construct, c.pos(as), "element 0")
+		} else {
+			c.R.Bad(rule, construct, c.pos(as), "the keyword is stored at index "+str(ie.Index)+" of a list with several values: `border-color:currentcolor red currentcolor` → `border-color:initial red initial`, which no browser accepts — the declaration is lost")
+		}
+		return true
+	})
+	c.R.Floor(rule, "stores of initialBytes into the value list", n, 3)
 }
